@@ -51,7 +51,10 @@
        The PROBLEM half stays relative (C17_roundtrip_problems): C09_roundtrip speaks about a problem object that IS
        the parser's result on a text (its proof goes through the text's reading), and the combination of several
        parsed problems is not presented as one; it is tied by correspondence instead: every run exports every
-       combination with the real ProblemExporter, parses it back and compares every section inside Coq. *)
+       combination with the real ProblemExporter, parses it back and compares every section inside Coq, and the
+       structured problem cases (Corr/C17p.v) run Model/CombineProblems.v (combine_problems on the object model of
+       Model/Problem.v), C09's exporter model and the problem parser model against the implementation's combination,
+       exported text and re-parsed problem. *)
 From Coq Require Import List String Permutation.
 From Verif Require Import Base.Result Base.Str Base.PyDict Model.NumExpr Model.Domain Model.DomainExporter Model.CombineDomains
   Proofs.C08_Defs Proofs.C08_Range Proofs.C08_RangeDom Proofs.C08_Main Corr.Core Proofs.C17_Structured Proofs.C17_Compose.
